@@ -61,6 +61,13 @@ func c03Quote(e *emitter, r *rng, n int) {
 			continue
 		}
 		src := "package x\n\ntempl T(v string) {\n<script>" + script + "</script>\n}\n"
+		// what was parsed before must not matter: every third script is preceded by a file whose parse stops with an
+		// error in the middle of a JS string literal (as happens all the time in an editor or in watch mode)
+		if len(script)%3 == 0 {
+			for _, bad := range []string{"'Hello, {{ name }'", "\"x {{ f( }\"", "`a {{ b }`"} {
+				_, _ = parser.ParseString("package x\n\ntempl B(name string) {\n<script>var s = " + bad + ";</script>\n}\n")
+			}
+		}
 		tf, err := parser.ParseString(src)
 		if err != nil {
 			e.count("quote-parse-error")
